@@ -213,3 +213,33 @@ func VerifC01_ThriftSlow() {
 	verif.Assert(xf2.GetRequestId() == id, "request id differs after re-encode")
 	verif.Cover("end")
 }
+
+// VerifC02_ThriftIDWidth: the id handed to the stream table by
+// GenerateRequestID is exactly the id read back from the wire after
+// SetRequestId/Encode/Decode, and counters less than 2^63 apart give distinct ids.
+func VerifC02_ThriftIDWidth() {
+	c := verif.U64("c")
+	c0 := c
+	id := thriftProtocol{}.GenerateRequestID(&c)
+	verif.Assert(c == c0+1, "counter must advance by one")
+	f := zzFrame("f", 0)
+	ctx := zzCtx()
+	frame, err := thriftProtocol{}.Decode(ctx, buffer.NewIoBufferBytes(verif.WithStaleCap(f, 64)))
+	verif.Assume(frame != nil && err == nil)
+	xf := frame.(api.XFrame)
+	xf.SetRequestId(id)
+	out, err := thriftProtocol{}.Encode(ctx, frame)
+	verif.Assume(err == nil && out != nil)
+	frame2, err := thriftProtocol{}.Decode(zzCtx(), buffer.NewIoBufferBytes(verif.WithStaleCap(append([]byte{}, out.Bytes()...), 64)))
+	verif.Assert(frame2 != nil && err == nil, "frame with the generated id must decode")
+	if frame2 == nil {
+		return
+	}
+	verif.Assert(frame2.(api.XFrame).GetRequestId() == id, "id read from the wire differs from the id the stream table was given")
+	d := verif.U64("d")
+	verif.Assume(d != 0 && d>>63 == 0)
+	c2 := c0 + d
+	id2 := thriftProtocol{}.GenerateRequestID(&c2)
+	verif.Assert(id2 != id, "two live counters map to the same wire id")
+	verif.Cover("end")
+}
